@@ -161,13 +161,14 @@ func (mc *XMCache) newXModelCacheIterator(bucket string, startKey []byte, endKey
 	outputIter := iter
 
 	iter, _ = mc.inputsCache.Select(bucket, startKey, endKey)
-	inputIter := newStripDelIterator(iter)
+	inputIter := newStripNonLiveIterator(iter)
 
 	backendIter, err := mc.model.Select(bucket, startKey, endKey)
 	if err != nil {
 		return nil, err
 	}
-	backendIter = newStripDelIterator(
+	// 验证时backend是由读集构造的, 同样带有空记录
+	backendIter = newStripNonLiveIterator(
 		newRsetIterator(bucket, backendIter, mc),
 	)
 	// return newContractIterator(backendIter), nil
